@@ -31,12 +31,30 @@ func c20Run(ci any) Result {
 	// then, so that the names are unique).
 	byHandler := len(c.Routes) <= len(c20Handlers) && (c.Idx+len(c.Routes)+len(c.Args))%2 == 0
 	name := func(i int) string { return fmt.Sprintf("route-%d", i) }
+	// Where the routes are mounted: on the Echo instance, or in a group that has middleware (the group then also
+	// registers its two catch-all RouteNotFound routes, which the expected table below contains as well).
+	var reg rRegistrar = e
+	routes := c.Routes
+	inGroup := (c.Idx+2*len(c.Args)+len(c.Routes))%3 == 1
+	for _, r := range c.Routes {
+		if r.Method == routeNotFound {
+			inGroup = false
+		}
+	}
+	if inGroup {
+		reg = e.Group("/grp", func(next echo.HandlerFunc) echo.HandlerFunc { return func(ctx echo.Context) error { return next(ctx) } })
+		routes = nil
+		for _, r := range c.Routes {
+			routes = append(routes, rRoute{Method: r.Method, Path: "/grp" + r.Path})
+		}
+		routes = append(routes, rRoute{Method: routeNotFound, Path: "/grp"}, rRoute{Method: routeNotFound, Path: "/grp/*"})
+	}
 	for i, r := range c.Routes {
 		i := i
 		if byHandler {
-			e.Add(r.Method, r.Path, c20Handlers[i])
+			reg.Add(r.Method, r.Path, c20Handlers[i])
 		} else {
-			rt := e.Add(r.Method, r.Path, func(ctx echo.Context) error {
+			rt := reg.Add(r.Method, r.Path, func(ctx echo.Context) error {
 				cur.Kind = 'D'
 				cur.Hid = i
 				cur.PPath = ctx.Path()
@@ -83,6 +101,18 @@ func c20Run(ci any) Result {
 		return func(ctx echo.Context) error {
 			err := next(ctx)
 			cur.Path = ctx.Path()
+			if inGroup && cur.Kind != 'D' && (ctx.Path() == "/grp" || ctx.Path() == "/grp/*") {
+				// answered by one of the group's own catch-all routes (echo.NotFoundHandler cannot be
+				// instrumented): that is a dispatch to the RouteNotFound entry of the expected table
+				cur.Kind = 'D'
+				cur.Hid = len(c.Routes)
+				if ctx.Path() == "/grp/*" {
+					cur.Hid++
+				}
+				cur.PPath = ctx.Path()
+				cur.Names = append([]string{}, ctx.ParamNames()...)
+				cur.Values = append([]string{}, ctx.ParamValues()...)
+			}
 			return err
 		}
 	})
@@ -92,6 +122,28 @@ func c20Run(ci any) Result {
 	}
 	var url string
 	entryMismatch := ""
+	if len(args) >= 2 {
+		// the same route was reversed a moment ago with the SAME characters split differently between the values
+		// (and with the values in reverse order): earlier calls must not influence this one
+		a0, a1 := c.Args[0], c.Args[1]
+		alt := append([]interface{}{}, args...)
+		if len(a0) > 0 {
+			alt[0], alt[1] = a0[:len(a0)-1], a0[len(a0)-1:]+a1
+		} else if len(a1) > 0 {
+			alt[0], alt[1] = a1[:1], a1[1:]
+		}
+		rev := make([]interface{}, len(args))
+		for i := range args {
+			rev[len(args)-1-i] = args[i]
+		}
+		if byHandler {
+			e.URI(c20Handlers[c.Idx], alt...)
+			e.URL(c20Handlers[c.Idx], rev...)
+		} else {
+			e.Reverse(name(c.Idx), alt...)
+			e.Router().Reverse(name(c.Idx), rev...)
+		}
+	}
 	if byHandler {
 		url = e.URI(c20Handlers[c.Idx], args...)
 		if u2 := e.URL(c20Handlers[c.Idx], args...); u2 != url {
@@ -103,14 +155,17 @@ func c20Run(ci any) Result {
 			entryMismatch = fmt.Sprintf("Router.Reverse gives %q, Echo.Reverse gives %q", u2, url)
 		}
 	}
-	rt := c.Routes[c.Idx]
+	rt := routes[c.Idx]
 	rServeRec(e, &cur, rReq{Method: rt.Method, Path: url})
 	res := Result{
-		Ops: wJoin(rTableWire(c.Routes), wInt(c.Idx), wStrs(c.Args)),
+		Ops: wJoin(rTableWire(routes), wInt(c.Idx), wStrs(c.Args)),
 		Obs: wJoin(wStr(url), cur.wire()),
 	}
 	toks, names, after := rNorm(rt.Path)
 	tags := []string{}
+	if inGroup {
+		tags = append(tags, "routes-in-a-group-with-middleware")
+	}
 	if hostTwin {
 		tags = append(tags, "host-router-with-equal-names")
 	}
@@ -122,7 +177,7 @@ func c20Run(ci any) Result {
 	if entryMismatch != "" {
 		res.Oracle = entryMismatch
 	}
-	if c.Warm > 0 && c.Warm < len(c.Routes) {
+	if c.Warm > 0 && c.Warm < len(routes) {
 		tags = append(tags, "reverse-before-later-registrations")
 	}
 	valid := !after && len(c.Args) == len(names) && rt.Method != routeNotFound
@@ -150,7 +205,7 @@ func c20Run(ci any) Result {
 		if res.Oracle != "" {
 		} else if url != want {
 			res.Oracle = fmt.Sprintf("Reverse(%q, %q) = %q, want %q", rt.Path, c.Args, url, want)
-		} else if !rColonClash(c.Routes) {
+		} else if !rColonClash(routes) {
 			switch {
 			case cur.Kind != 'D':
 				res.Oracle = fmt.Sprintf("the reversed URL %q of %s %q is not dispatched: %s", url, rt.Method, rt.Path, cur.wire())
@@ -158,7 +213,7 @@ func c20Run(ci any) Result {
 				if strings.Join(cur.Values, "\x00") != strings.Join(c.Args, "\x00") || len(cur.Values) != len(c.Args) {
 					res.Oracle = fmt.Sprintf("route %q reversed with %q, dispatched back with values %q", rt.Path, c.Args, cur.Values)
 				}
-			case len(c.Routes) == 1:
+			case len(routes) == 1:
 				res.Oracle = "single route table dispatched elsewhere"
 			default:
 				tags = append(tags, "another-route-has-priority")
@@ -207,15 +262,15 @@ func rServeRec(e *echo.Echo, cur *rObs, q rReq) {
 	switch {
 	case rec.Code == http.StatusNotFound:
 		cur.Kind = 'N'
-	case rec.Code == http.StatusMethodNotAllowed, rec.Code == http.StatusNoContent && rec.Header().Get("Allow") != "":
+	case rec.Code == http.StatusMethodNotAllowed, rec.Code == http.StatusNoContent && rec.Result().Header.Get("Allow") != "":
 		cur.Kind = 'M'
-		cur.Allow = splitAllow(rec.Header().Get("Allow"))
+		cur.Allow = splitAllow(rec.Result().Header.Get("Allow"))
 	default:
 		cur.Kind = '?'
 	}
 }
 
-var c20Values = []string{"a", "ab", "7", "x.y", "a:b", ":", "%41", "%2F", "\xc3\xa9", "a b", "*", "new", "users", "-", "a\\b"}
+var c20Values = []string{"a", "ab", "7", "x.y", "a:b", ":", "%41", "%2F", "a%2Fb", "a%2fb%2F", "{x}", "a|b", "a+b", "a%00b", "\xc3\xa9", "a b", "*", "new", "users", "-", "a\\b"}
 var c20Wild = []string{"", "a", "a/b", "/", "a/b/c.txt", "x:y", "%2e%2e", "\xc3\xa9/\xc3\xa9", "*", "//"}
 
 func c20Gen(r *rand.Rand, tier string) []any {
